@@ -533,6 +533,21 @@ theorem step_shift {k : F} (L : ShiftLaws F k) (sec : Section) (st st' : HitObje
   | catchTheBeat => exact ⟨hco, hev, htp, hdf⟩
   | mania => exact ⟨hco, hev, htp, hdf⟩
 
+/-- **parse_line_shift** (all sections): the three line-level results in one statement. -/
+theorem parse_line_shift {k : F} (L : ShiftLaws F k) :
+    (∀ (st st' : TimingPointsState F P) (line line' : Str), TpRel k st st' → TpLineShift k line line' →
+      (parseTimingPoints st' line').1 = (parseTimingPoints st line).1 ∧
+        TpRel k (parseTimingPoints st line).2 (parseTimingPoints st' line').2) ∧
+    (∀ (st : Events F) (line line' : Str), EvLineShift k line line' →
+      (parseEvents (shEvents k st) line').2 = (parseEvents st line).2 ∧
+        (parseEvents (shEvents k st) line').1 = shEvents k (parseEvents st line).1) ∧
+    (∀ (mode : GameMode) (c c' : HOCore F P) (line line' : Str), HoRel k c c' → HoLineShift k line line' →
+      (parseHitObjectLine mode c' line').2 = (parseHitObjectLine mode c line).2 ∧
+        HoRel k (parseHitObjectLine mode c line).1 (parseHitObjectLine mode c' line').1) :=
+  ⟨fun st st' line line' h hl => tp_parse_line_shift L st st' h line line' hl,
+   fun st line line' hl => ev_parse_line_shift L st line line' hl,
+   fun mode c c' line line' h hl => ho_parse_line_shift L mode c c' h line line' hl⟩
+
 /-- the lines of a file body, each tagged with the section it stands in (what the framing loop dispatches). -/
 abbrev SecLines := List (Section × Str)
 
